@@ -87,7 +87,7 @@ pub fn e1_jobs(prop: &str, tier: Tier) -> (Vec<E1Job>, usize) {
         "C13" => if q { vec![pf(5), pe(1, true, 2), pe(2, true, 1), paj(3), E1Job { profile: Profile::S, depth: 3, alt_map: false }] } else { vec![pf(5), pe(2, true, 2), E1Job { profile: Profile::S, depth: 3, alt_map: false }] },
         "C04x" => vec![],
         "C18" => if q { vec![pill(4), pc(7), pbs(3), pbj(4), pn(3), paj(4), pc3(9)] } else { vec![pill(5), pc(8), pc3(10), paj(5), pb(4), pbj(5), pn(4), pe(1, true, 2)] },
-        "C19" => if q { vec![pa15(3), pb(3), pd(5), pe(1, true, 2), pc(5), paj(4), pill(5)] } else { vec![pa(3), pb(3), pbs(4), pd(5), pe(1, true, 2), pc(6), pf(4), paj(5), paj5(4)] },
+        "C19" => if q { vec![pa15(3), pb(3), pd(5), pe(1, true, 2), pc(5), paj(4), pill(5), E1Job { profile: Profile::S, depth: 2, alt_map: false }] } else { vec![pa(3), pb(3), pbs(4), pd(5), pe(1, true, 2), pc(6), pf(4), paj(5), paj5(4), E1Job { profile: Profile::S, depth: 3, alt_map: false }] },
         "C20" => if q { vec![pn(4), pill(4), pb(3), pc(7), pd(5), pe(1, true, 2), paj(4), pa15(3)] } else { vec![pn(5), pb(4), pc(8), pd(6), pe(1, true, 2)] },
         _ => vec![],
     };
@@ -521,6 +521,28 @@ pub fn e2_jobs(prop: &str, tier: Tier) -> Vec<E2Job> {
             }
         }
         jobs.push(E2Job { label: "async scripts over thread-local plans (polling / accessors between dispatch and wait) and back-to-back dispatch() calls on every <= 2-op plan".into(), scenarios: scs, bounds: b(1), delay: false });
+    }
+    if prop == "C04" || prop == "C05" {
+        // dispatch entered from a worker of a FOREIGN pool (of 1 or 2 threads): the dispatcher's own pool (user-supplied
+        // or default) does the work, every system runs once; plans with single- and multi-group stages, batches
+        let mut scs = Vec::new();
+        let mut plans: Vec<Vec<Op>> = core(vec![3], 2);
+        plans.extend(eb(1));
+        plans.push(wide_stage(3));
+        plans.push(vec![Op::Sys(crate::spec::SysSpec { name: "w".into(), reads: vec![], writes: vec![0], time: 3, deps: vec![] }), Op::Sys(crate::spec::SysSpec { name: "r1".into(), reads: vec![0], writes: vec![], time: 3, deps: vec![] }), Op::Sys(crate::spec::SysSpec { name: "r2".into(), reads: vec![0], writes: vec![], time: 3, deps: vec![] }), Op::Sys(crate::spec::SysSpec { name: "w2".into(), reads: vec![], writes: vec![0], time: 3, deps: vec![] })]);
+        for p in &plans {
+            for foreign in [1usize, 2] {
+                for own_user in [Some(2usize), None] {
+                    for mode in [Mode::Dispatch, Mode::Par] {
+                        let mut s = Scenario::plain(p.clone(), mode, 2);
+                        s.foreign_pool = Some(foreign);
+                        s.user_pool = own_user;
+                        scs.push(s);
+                    }
+                }
+            }
+        }
+        jobs.push(E2Job { label: "dispatch entered from a worker of a foreign pool of 1 / 2 threads (own pool user-supplied or default): <= 2-op plans, single batches, 3-wide stage, writer / two readers / writer".into(), scenarios: scs, bounds: b(if q { 0 } else { 1 }), delay: false });
     }
     if prop == "C04" || prop == "C05" {
         // pool-size sweep: stages wider than / equal to / narrower than the pool
@@ -1092,6 +1114,23 @@ fn c11_scenarios(w: usize, n: usize) -> Vec<(String, Scenario)> {
             }
         }
     }
+    // the wide stage inside a batch inside a batch: the innermost dispatcher runs on the pool its own builder made
+    // (finding KF3), which here is as wide as the shared one - it must still run the stage in parallel
+    if w <= 4 {
+        let mid = vec![Op::Batch(crate::spec::BatchSpec { name: "n".into(), deps: vec![], ctrl: crate::spec::CtrlData::Unit, times: 1, multi: false, fetch_data: false, inner: wide_stage(w) })];
+        let top = vec![Op::Batch(crate::spec::BatchSpec { name: "b".into(), deps: vec![], ctrl: crate::spec::CtrlData::Unit, times: 1, multi: false, fetch_data: false, inner: mid })];
+        for user in [false, true] {
+            for mode in [Mode::Dispatch, Mode::Async] {
+                let mut s = Scenario::plain(top.clone(), mode, if user { 1 } else { 2 });
+                s.default_threads = Some(n);
+                if user {
+                    s.user_pool = Some(n);
+                }
+                s.rendezvous = Some(((2..2 + w).collect(), w as u16));
+                v.push((format!("stage inside a batch inside a batch / default pool of {} threads{} / width {}", n, if user { " and a user-supplied pool of the same size" } else { "" }, w), s));
+            }
+        }
+    }
     // batch-inner stage
     let inner = wide_stage(w);
     let batch = vec![Op::Batch(crate::spec::BatchSpec { name: "b".into(), deps: vec![], ctrl: crate::spec::CtrlData::Unit, times: 1, multi: false, fetch_data: false, inner })];
@@ -1367,10 +1406,35 @@ pub fn run_c15(tier: Tier, budget: Duration, frag: &mut Frag) {
                 }
             }
         }
+        // long pipelines: 5..17 single-system stages (and one with a two-wide stage in the middle), dispatched up to
+        // three times on the same dispatcher (state that survives from one dispatch to the next)
+        for nst in [5usize, 6, 8, 9, 12, 13, 16, 17] {
+            for wide_mid in [false, true] {
+                if wide_mid && nst > 9 {
+                    continue;
+                }
+                let mut ops: Vec<Op> = Vec::new();
+                for k in 0..nst {
+                    if wide_mid && k == nst / 2 {
+                        ops.push(Op::Barrier);
+                        ops.push(sy(&format!("r{}a", k), &[0], &[], &[]));
+                        ops.push(sy(&format!("r{}b", k), &[0], &[], &[]));
+                        ops.push(Op::Barrier);
+                    } else {
+                        ops.push(sy(&format!("w{}", k), &[], &[0], &[]));
+                    }
+                }
+                for script in ["DW", "DWDW", "DWDWDW", "DDW", "DXDRW"] {
+                    let mut sc = Scenario::plain(ops.clone(), Mode::Async, 0);
+                    sc.script = Some(script.to_string());
+                    scs.push(sc);
+                }
+            }
+        }
         let t0 = Instant::now();
         let opts = ExploreOpts { bounds: vec![0, 1], all_points: false, deadline: t0 + budget / 5, max_execs: u64::MAX, keep_traces: 0, deadlock_prop: Some("C15"), delay_mode: true };
         let r = run_scenarios(&scs, Mon::default(), &opts);
-        frag.parts.push(json!({"engine":"E2 schedmc","scenarios":format!("plan shapes: every sequence of 2..{} stages, each one group or two groups wide; scripts DW, DWDW, DX, DDW", max_stages),"n_scenarios":scs.len(),"scenarios_completed":r.completed,"bound_kind":"delay (all deviations)","bounds":[0,1],"schedules":r.executions,"states":r.nodes,"transitions":r.transitions,"deadlocks":r.deadlocks,"cap_hit":r.capped,"wall_s":t0.elapsed().as_secs_f64()}));
+        frag.parts.push(json!({"engine":"E2 schedmc","scenarios":format!("plan shapes: every sequence of 2..{} stages, each one group or two groups wide; scripts DW, DWDW, DX, DDW; pipelines of 5..17 stages dispatched up to three times", max_stages),"n_scenarios":scs.len(),"scenarios_completed":r.completed,"bound_kind":"delay (all deviations)","bounds":[0,1],"schedules":r.executions,"states":r.nodes,"transitions":r.transitions,"deadlocks":r.deadlocks,"cap_hit":r.capped,"wall_s":t0.elapsed().as_secs_f64()}));
         frag.states += r.nodes;
         frag.transitions += r.transitions;
         frag.exhaustive &= !r.capped;
@@ -1531,6 +1595,20 @@ pub fn run_c09(tier: Tier, budget: Duration, frag: &mut Frag) {
         // when the top bit is lost, ids around the 32-bit boundary
         jobs.push((if q { 2 } else { 3 }, q, b.clone()));
     }
+    {
+        // unusual but legitimate resource types
+        let t1 = Instant::now();
+        let depth = if q { 4 } else { 5 };
+        let (types, hist) = crate::c09::zoo_sweep(depth, &mut frag.col);
+        frag.parts.push(json!({
+            "engine": "E3 histmc",
+            "what": format!("World map histories over a zoo of {} resource types (Box<dyn Resource>, Box<u64>, Arc<u64>, u64, (), (u64, String), Option<u64>, Vec<Box<dyn Resource>>, Mutex<u64>): every history of <= {} operations over insert / insert_by_id / remove / remove_by_id / entry / typed system-data read on slots (T,0), (T,1); after every step presence, the stored value's dynamic type and the fetched value are compared with the model", types, depth),
+            "histories": hist, "wall_s": t1.elapsed().as_secs_f64(),
+        }));
+        frag.states += hist;
+        frag.transitions += hist;
+        frag.traces_validated += hist;
+    }
     let n = jobs.len() as u32;
     for (depth, full, ids) in jobs {
         let t1 = Instant::now();
@@ -1609,6 +1687,22 @@ pub fn run_c17(tier: Tier, budget: Duration, frag: &mut Frag) {
     frag.traces_validated += st.histories;
     frag.exhaustive &= !st.capped;
     frag.samples.extend(samples);
+    // the same histories with a ZERO-SIZED type in the role of the type whose cast changes the address
+    {
+        let t1 = Instant::now();
+        crate::c17::set_bad_is_zst(true);
+        let (st, _) = crate::c17::run(depth, t0 + budget, threads(), &mut frag.col);
+        crate::c17::set_bad_is_zst(false);
+        frag.parts.push(json!({
+            "engine": "E3 histmc",
+            "what": "the same meta-table histories with a zero-sized type in the role of the type whose CastFrom changes the address (a Box of it is a dangling address, the rejection must not depend on the size)",
+            "histories": st.histories, "distinct_observed_states": st.states, "max_depth": st.max_depth, "cap_hit": st.capped, "wall_s": t1.elapsed().as_secs_f64(),
+        }));
+        frag.states += st.states;
+        frag.transitions += st.transitions;
+        frag.traces_validated += st.histories;
+        frag.exhaustive &= !st.capped;
+    }
     // creation-path sweep: the resources reach the world by insert, the entry API, a default provider (setup), and
     // there are decoys under a dynamic id; de-duplicated on (registration order, present set, creation path, decoys)
     let t1 = Instant::now();
